@@ -98,10 +98,17 @@ pub async fn publish_handler(w: Rc<World>, conn: usize, p: v3::Publish, route: &
 }
 
 pub async fn proto_handler(w: Rc<World>, conn: usize, msg: v3::ProtocolMessage) -> Result<v3::ProtocolMessageAck, AppErr> {
-    let (brief, pid) = match &msg {
+    let mut msg = msg;
+    let (brief, pid) = match &mut msg {
         v3::ProtocolMessage::PublishRelease(r) => (format!("PUBREL #{}", r.packet_id), Some(r.packet_id.get())),
-        v3::ProtocolMessage::Subscribe(_) => ("SUBSCRIBE".to_string(), None),
-        v3::ProtocolMessage::Unsubscribe(_) => ("UNSUBSCRIBE".to_string(), None),
+        v3::ProtocolMessage::Subscribe(s) => {
+            let f = s.iter_mut().next().map(|x| x.topic().to_string()).unwrap_or_default();
+            (format!("SUBSCRIBE {f}"), None)
+        }
+        v3::ProtocolMessage::Unsubscribe(s) => {
+            let f = s.iter().next().map(ToString::to_string).unwrap_or_default();
+            (format!("UNSUBSCRIBE {f}"), None)
+        }
         v3::ProtocolMessage::Disconnect(_) => ("DISCONNECT".to_string(), None),
         v3::ProtocolMessage::Ping(_) => ("PINGREQ".to_string(), None),
     };
